@@ -261,7 +261,7 @@ inline Stats run_sharded(int nshards, const std::function<void(Worker &)> &body,
     s.pid = p;
   };
   for (int k = 0; k < nshards; k++) launch(k);
-  int live = nshards;
+  int live = nshards, total_timeouts = 0;
   while (live > 0) {
     int status = 0; pid_t p = wait(&status);
     if (p < 0) break;
@@ -280,7 +280,12 @@ inline Stats run_sharded(int nshards, const std::function<void(Worker &)> &body,
     if (!s.sh->in_case) { fprintf(stderr, "ERROR: worker %d died outside a case (%s): %s\n", k, ci.how.c_str(), ci.stderr_tail.c_str()); exit(2); }
     total.add("worker_deaths");
     onCrash(ci, total);
-    s.resume = ci.idx; s.restarts++; if (ci.how == "timeout") s.timeouts++;
+    s.resume = ci.idx; s.restarts++; if (ci.how == "timeout") { s.timeouts++; total_timeouts++; }
+    if (total_timeouts > 10 || total.nviol > 400) {  // enough evidence: stop the whole level instead of waiting for every hanging / crashing case
+      total.capped = true; total.add("level_abandoned_after_many_timeouts_or_crashes");
+      s.pid = 0; for (auto &o : slots) if (o.pid) { kill(o.pid, SIGKILL); int st2; waitpid(o.pid, &st2, 0); Stats sv; sv.load(slurp(o.out + ".viol")); total.merge(sv); unlink((o.out + ".viol").c_str()); unlink(o.out.c_str()); unlink(o.err.c_str()); o.pid = 0; }
+      live = 0; break;
+    }
     if (s.timeouts > 4) { total.capped = true; total.add("shards_abandoned_after_5_timeouts"); live--; s.pid = 0; continue; }
     if (s.restarts > 60) { total.capped = true; total.add("shards_abandoned_after_60_crashes"); live--; s.pid = 0; continue; }
     launch(k);
